@@ -36,7 +36,7 @@ def gen_model(rng, size="small", feats=None):
         "capacity": p(0.6), "windows": p(0.5), "maxwait_stop": p(0.35), "maxwait_veh": p(0.3),
         "endtime": p(0.35), "maxdur": p(0.3), "maxstops": p(0.3), "maxdist": p(0.3),
         "attrs": p(0.3), "precedence": p(0.4), "no_startloc": p(0.15), "penalties": p(0.6),
-        "activation": p(0.5), "nonmetric": p(0.5), "tight": p(0.5),
+        "activation": p(0.5), "nonmetric": p(0.5), "tight": p(0.5), "user": False,
     }
     if feats:
         F.update(feats)
@@ -159,7 +159,18 @@ def gen_model(rng, size="small", feats=None):
         opts["dis_start_time"] = False
     opts.update({"f_activation": rng.choice([0, 1, 3]), "f_travel": rng.choice([0, 1, 2]),
                  "f_vehicles_duration": rng.choice([0, 1, 1]), "f_unplanned": rng.choice([0, 1, 1, 2])})
-    return {"stops": stops, "vehicles": vehicles, "units": units, "arcs": arcs, "dur": dur, "dist": dist,
+    user = []
+    if F.get("user"):
+        for _ in range(rng.randint(1, 2)):
+            f = rng.choice(["pos", "arrival", "start", "end", "cumtravel", "wait"] + (["level0"] if nres else []))
+            veh = rng.random() < 0.4
+            mx = {"pos": rng.randint(1, 4), "arrival": T0 + rng.choice([1800, 3600, 7200]), "start": T0 + rng.choice([1800, 3600, 7200]),
+                  "end": T0 + rng.choice([3600, 7200, 14400]), "cumtravel": rng.choice([600, 1500, 4000]), "wait": rng.choice([0, 300, 1800]),
+                  "level0": rng.randint(0, 3)}[f]
+            if f in ("arrival", "start", "end") and not F["windows"] and vehicles[0]["start_time"] is None:
+                mx -= T0
+            user.append((f, mx, veh, rng.random() < 0.3))
+    return {"user": user, "stops": stops, "vehicles": vehicles, "units": units, "arcs": arcs, "dur": dur, "dist": dist,
             "nres": nres, "res_mode": res_mode, "opts": opts, "features": {k: bool(v) for k, v in F.items()}}
 
 
@@ -253,7 +264,7 @@ def opt_str(x):
 def to_lines(m):
     o = m["opts"]
     b = lambda x: "1" if x else "0"  # noqa: E731
-    ls = ["nres %d" % m["nres"],
+    ls = ["user %s %d %s %s" % (f, mx, b(v), b(t)) for (f, mx, v, t) in m.get("user", [])] + ["nres %d" % m["nres"],
           "opt " + " ".join([b(o[k]) for k in ["dis_capacity", "dis_distance", "dis_max_duration", "dis_end_time",
                                                "dis_windows", "dis_max_stops", "dis_max_wait_stop", "dis_max_wait_vehicle",
                                                "dis_attributes", "dis_start_time", "dis_durations"]] +
